@@ -60,7 +60,7 @@ pub fn all() -> Vec<Check> {
             id: "C04",
             props: c04::props,
             describe: c04::describe,
-            sweeps: None,
+            sweeps: Some(c04::sweeps),
         },
         Check {
             id: "C05",
